@@ -13,6 +13,11 @@ from . import core
 
 
 def main(argv=None) -> int:
+    if argv is None and os.environ.get('PYTHONHASHSEED') != '0':
+        # pin str hashing so that set/dict iteration order, and with it the order and numbering of the generated
+        # obligations, is the same on every run
+        os.environ['PYTHONHASHSEED'] = '0'
+        os.execv(sys.executable, [sys.executable, '-m', 'vc.check'] + sys.argv[1:])
     ap = argparse.ArgumentParser()
     ap.add_argument('pid')
     ap.add_argument('--tier', default=os.environ.get('VERIF_TIER', 'quick'))
@@ -25,7 +30,7 @@ def main(argv=None) -> int:
     pid = args.pid
     ctx = core.Ctx(pid, tier, seed)
     cmd = 'python3-vt -m vc.check %s --tier %s' % (pid, tier)
-    ev_path = os.path.join(core.VERIF, 'evidence', pid + '.json')
+    ev_path = os.path.join(core.EVIDENCE_DIR, pid + '.json')
     try:
         if os.path.exists(ev_path):
             os.unlink(ev_path)
@@ -71,8 +76,8 @@ def _fallback_evidence(ctx, cmd, why):
         'wall_s': round(time.time() - ctx.t0, 3),
         'violations': 0,
     }
-    os.makedirs(os.path.join(core.VERIF, 'evidence'), exist_ok=True)
-    json.dump(ev, open(os.path.join(core.VERIF, 'evidence', ctx.pid + '.json'), 'w'), indent=1)
+    os.makedirs(core.EVIDENCE_DIR, exist_ok=True)
+    json.dump(ev, open(os.path.join(core.EVIDENCE_DIR, ctx.pid + '.json'), 'w'), indent=1)
 
 
 if __name__ == '__main__':
